@@ -1734,6 +1734,17 @@ class Interp:
         if isinstance(node, ast.Call) and (dotted_name(node.func) or "").split(".")[-1] in ("dict", "OrderedDict") and not node.args and not node.keywords:
             st = self.__dict__.setdefault("modstate", {})
             return st.setdefault((m.name, name), Tup([], "dict"))
+        if isinstance(node, ast.Call) and (dotted_name(node.func) or "").split(".")[-1] == "namedtuple" and len(node.args) >= 2 and not node.keywords:
+            # collections.namedtuple("Name", fields): a tuple class with named fields
+            spec = node.args[1]
+            names = None
+            if isinstance(spec, ast.Constant) and isinstance(spec.value, str):
+                names = spec.value.replace(",", " ").split()
+            elif isinstance(spec, (ast.List, ast.Tuple)) and all(isinstance(e, ast.Constant) and isinstance(e.value, str) for e in spec.elts):
+                names = [e.value for e in spec.elts]
+            if names:
+                st = self.__dict__.setdefault("modstate", {})
+                return st.setdefault((m.name, name), Opaque("namedtuple-class", {"fields": names, "typename": name}))
         if isinstance(node, (ast.Tuple, ast.List, ast.Dict, ast.Set)) and all(
                 isinstance(x, (ast.Constant, ast.Tuple, ast.List, ast.Dict, ast.Set, ast.UnaryOp, ast.Load, ast.USub, ast.UAdd, ast.Attribute, ast.Name)) for x in ast.walk(node)):
             # literal table: tuples are immutable values, the mutable kinds are one object per abstract run
@@ -2570,6 +2581,18 @@ class Interp:
         if isinstance(f, Unknown):
             return Unknown("call of " + f.why)
         if not isinstance(f, FuncRef):
+            if isinstance(f, Opaque) and f.name == "namedtuple-class":
+                names = f.attrs["fields"]
+                given = dict(zip(names, args))
+                for k, v in kwargs.items():
+                    if k in given or k not in names:
+                        raise raise_exc("TypeError", node, "%s() got an unexpected or repeated field %s" % (f.attrs["typename"], k))
+                    given[k] = v
+                if len(given) != len(names) or len(args) > len(names):
+                    raise raise_exc("TypeError", node, "%s() takes exactly the fields %s" % (f.attrs["typename"], names))
+                t = Tup([given[n] for n in names], "tuple")
+                t.fields = list(names)
+                return t
             if isinstance(f, Opaque):
                 self.calls.append((f.name, args, kwargs, node))
                 return Unknown("call of opaque %s" % f.name)
